@@ -10,7 +10,9 @@ PROP_FILE = "C05"
 CASE_DEPS = X.CASE_DEPS
 RULE = ("per function code: quantities {limit-1, limit, limit+1, 0, 1, 65535} x addresses {start-1, start, end-1, end, "
         "65535, fitting} on layouts large enough for the limit (sizes 125 / 2000 / 65536) and small ones; byte counts "
-        "off by one; all 237 unassigned function codes 0..255 through the real ServerDecoder; all 65536 FC5 value "
+        "off by one and byte counts larger than the data carried (5, 6, 255 with 4 data bytes; FC15/FC23 likewise); the "
+        "outcome of ServerDecoder.decode is part of every observation (request object | None | exception class) and "
+        "the oracle decides from the wire fields; all 237 unassigned function codes 0..255 through the real ServerDecoder; all 65536 FC5 value "
         "words (16 sweeps of 4096 on one store each, observation = outcome + coil state); datastore failures injected "
         "at the 1st..4th datastore call of the last request of a history; the two defect regions (FC5 word, FC15 "
         "quantity) paired with their prefix-only history; every history ends with a full store dump compared with "
@@ -45,6 +47,7 @@ MANIFEST = {
 F_FC5 = "F-C05-fc5-value-word"
 F_FC15 = "F-C05-fc15-wire-quantity"
 F_FAULT = "F-C05-failure-after-write"
+F_SHORT = "F-C05-short-register-data-raises-in-decode"
 
 
 def big_layout(r, size, start, zero, sparse=False):
@@ -179,7 +182,51 @@ def suite_bytecounts(tier):
             else:
                 ws.append(X.gen_request(r, L, r.choice(X.DATA_FCS), valid=True))
         cases += run_list(L, ws, i, "bytecount", chunk=10)
+    # byte count LARGER than the data carried (the decoder must still hand the request to execute -> 03), and
+    # header fields that demand 03 on PDUs whose register data is too short for decode (last request of its case)
+    k = 0
+    for nd, variants in ((4, [("wregs", 2, 5), ("wregs", 2, 6), ("wregs", 2, 255), ("wregs", 1, 4), ("wregs", 3, 4),
+                              ("wregs", 200, 4), ("rwm", 3, 4), ("rwm", 2, 6), ("rwm", 2, 255), ("rwm", 2, 5),
+                              ("rwm", 1, 4)]),
+                         (2, [("wcoils", 16, 5), ("wcoils", 16, 6), ("wcoils", 16, 255), ("wcoils", 9, 3),
+                              ("wcoils", 8, 2)])):
+        for kind, q, bc in variants:
+            for rep in range(1 if tier == "quick" else 6):
+                L = X.gen_layout(r, shared=False, size=r.choice([20, 40]), sparse=False, start=r.choice([0, 1]))
+                data = [r.randrange(256) for _ in range(nd)]
+                if kind == "rwm":
+                    ra, rq = X.pick_range(r, L, "h", 5, True)
+                    wa, _ = X.pick_range(r, L, "h", 1, True)
+                    w = ("rwm", ra, rq, min(wa, 10), q, bc, data)
+                else:
+                    a, _ = X.pick_range(r, L, "c" if kind == "wcoils" else "h", 1, True)
+                    w = (kind, min(a, 10), q, bc, data)
+                h = X.History(L, k)
+                k += 1
+                for _ in range(r.choice([0, 2])):
+                    h.request(X.gen_request(r, L, r.choice(X.DATA_FCS), valid=True))
+                h.request(w)
+                h.dump()
+                cases.append(h.case(kind="bytecount-gt-data", nontrivial=True, extra={"last_wire": list(w)}))
     return Suite("bytecounts", X.IMPORTS, X.CHK_HIST, cases, shard=20)
+
+
+def demands_03(w):
+    """the header fields alone demand exception 03 (FC16 / FC23)"""
+    if w[0] == "wregs":
+        return not (1 <= w[2] <= 123) or w[3] != 2 * w[2]
+    if w[0] == "rwm":
+        return not (1 <= w[2] <= 125) or not (1 <= w[4] <= 121) or w[5] != 2 * w[4]
+    return False
+
+
+def short_for_decode(w):
+    """the register data carried is shorter than what decode() reads"""
+    if w[0] == "wregs":
+        return 2 * w[2] > len(w[4])
+    if w[0] == "rwm":
+        return 2 * ((w[5] + 1) // 2) > len(w[6])
+    return False
 
 
 def suite_functions(tier):
@@ -363,6 +410,12 @@ def classify(suite, desc):
             if o in (["WriteMultipleCoilsResponse", 15, [["Z", w[1]], ["Z", 8 * len(w[4])]]], ["E", 0x8F, 2]):
                 return F_FC15
         return None
+    if suite == "bytecounts" and desc.get("last_wire"):
+        it = last_request(desc)
+        w = _j(it["wire"])
+        if it.get("undecoded") == "StructError" and w == _j(desc["last_wire"]) and demands_03(w) and short_for_decode(w):
+            return F_SHORT
+        return None
     if suite == "faults" and desc.get("fault_after_set"):
         it = last_request(desc)
         w, o = _j(it["wire"]), _j(it["response"])
@@ -393,6 +446,9 @@ def replay_finding(f):
     if f["id"] == F_FC15:
         h = _one(W_LAYOUT, ("wcoils", wit["address"], wit["quantity"], wit["byte_count"], wit["data"]))
         return h.last_obs[0] != "E" or h.last_obs[2] != 3
+    if f["id"] == F_SHORT:
+        h = _one(W_LAYOUT, ("wregs", wit["address"], wit["quantity"], wit["byte_count"], wit["data"]))
+        return h.last_obs == ("Undecoded", "StructError")
     if f["id"] == F_FAULT:
         before = [int(v) for v in X.build(W_LAYOUT)[1][0].values]
         h = _one(W_LAYOUT, ("wcoil", wit["address"], wit["word"]), plan=wit["plan"])
